@@ -14,7 +14,8 @@ func vfIsTokenByte(c byte) bool {
 
 type vfRange struct {
 	typ, sub string
-	q10      int // q-value times 10
+	q10      int  // q-value times 10
+	junk     bool // q-value with more decimals than RFC 9110 allows: whether this range admits is unspecified
 }
 
 var vfOffers = []string{"ab/c", "a/b", "a/c", "x/y"} // "ab/c": a type that has another offer's type as a string prefix
@@ -59,7 +60,13 @@ func VerifH_negotiate_type() {
 		}
 		r.q10 = 10
 		text := r.typ + "/" + r.sub
-		switch vfChoice(4) {
+		switch vfChoice(5) {
+		case 4:
+			// a q-value with four decimals (one more than the grammar allows): how THIS range is read is
+			// unspecified, but it must not swallow the ranges that follow it on the line
+			text += ";q=0.9999"
+			r.q10, r.junk = 9, true
+			vfCover("long-q-value")
 		case 0:
 		case 1:
 			text += ";q=0"
@@ -91,26 +98,32 @@ func VerifH_negotiate_type() {
 	lines = append(lines, accept)
 	h := http.Header{"Accept": lines}
 	got := negotiateContentType(h, vfOffers, "d/e")
-	admitted := func(offer string) bool {
+	admitted := func(offer string, liberal bool) bool {
 		for _, r := range ranges {
+			if r.junk && !liberal {
+				continue
+			}
 			if r.q10 > 0 && vfRangeMatches(r, offer) {
 				return true
 			}
 		}
 		return false
 	}
-	any := false
+	any, anyLiberal := false, false
 	for _, o := range vfOffers {
-		if admitted(o) {
+		if admitted(o, false) {
 			any = true
+		}
+		if admitted(o, true) {
+			anyLiberal = true
 		}
 	}
 	if any {
 		isOffer := got == "a/b" || got == "a/c" || got == "x/y" || got == "ab/c"
 		vfCheck(isOffer, "an offer is admitted by the Accept header but the default was chosen")
-		vfCheck(admitted(got), "negotiated content type is not admitted by the Accept header")
+		vfCheck(admitted(got, true), "negotiated content type is not admitted by the Accept header")
 		vfCover("negotiated")
-	} else {
+	} else if !anyLiberal {
 		vfCheck(got == "d/e", "no offer is admitted but something other than the request's content type was chosen")
 		vfCover("default")
 	}
